@@ -5,11 +5,16 @@ import exprk
 def run(ctx):
     ctx.prove("C01")
     q = ctx.tier == "quick"
-    exprk.run_k(ctx, "C01", 200 if q else 12000, 20 if q else 400,
-                kinds=["elem", "elem", "elem", "binary", "binary", "binary", "clause"], tag="c01")
-    ctx.cov["rule"] = ("scripts of 1-4 statements, each ONE dataset-level operator (dataset∘dataset, dataset∘scalar, unary, parameterised) or a clause "
-                       "chain with component expressions of depth ≤ 3 over 2-3 input datasets (1-2 identifiers, 1-3 measures of Integer/Number/"
-                       "String/Boolean, 0-12 rows, nulls 25%, controlled key overlap); plus a nested single-statement stream; distinct = (script, data)")
+    exprk.run_k(ctx, "C01", 180 if q else 12000, 30 if q else 600,
+                kinds=["elem", "elem", "elem", "binary", "binary", "binary", "clause", "setop"], tag="c01",
+                directed={"nest21": 30 if q else 800, "setctx": 10 if q else 300})
+    ctx.cov["rule"] = ("scripts of 1-4 statements, each ONE dataset-level operator (dataset∘dataset, dataset∘scalar, unary, parameterised, set operator "
+                       "over 2-3 operands that may be clause/operator results) or a clause chain with component expressions of depth ≤ 3 over 2-3 input "
+                       "datasets (1-2 identifiers, 1-3 measures of Integer/Number/String/Boolean, 0-12 rows, nulls 25%, controlled key overlap, structures "
+                       "shared between datasets half of the time, columns declared in another order); a nested single-statement stream (depth 2-3, "
+                       "incl. set operators); directed single-statement families: nest21 = (DS_a(Id_1,Id_2) ∘ DS_b(Id_1)) as an operand of another "
+                       "dataset∘dataset operator on either side with several datapoints per Id_1 value, setctx = a set operator under sub / "
+                       "filter+calc / a dataset∘dataset or element-wise operator / another set operator; distinct = (script, data)")
     ctx.oblige("K: engine = run_script (Model/Expr.v) on every generated case, or the disagreement is reported", True)
     ctx.trusted.append("DuckDB 1.5.5 executes the emitted SQL (observed only). Bounds of the correspondence: ASCII strings; |integers| ≤ 1000 in data so "
                        "that BIGINT overflow is out of range; Numbers on a 1/4 grid (exact in DOUBLE); mod, ln/exp/log/sqrt, power with non-integer "
